@@ -118,6 +118,44 @@ def r3(ctx):
     rt = mir.in_closure(ctx.facts, cl, cb.return_term())
     ctx.check("MarketDataInMemory::stream", render(rt) == "Index::index(^self.events, $1)",
               "item i is (a clone of) events[i]", got=render(rt), key="item")
+    _r3_dataset(ctx)
+
+
+def _r3_dataset(ctx):
+    """... and `events` IS the dataset the user handed over: the constructor stores the given vector itself - not a sorted,
+    filtered or otherwise rearranged copy ("in dataset order" is the order of the user's dataset)"""
+    MD = "barter::backtest::market_data::MarketDataInMemory"
+    nb = ctx.fibody(name="new", self_adt=MD, trait="")
+    p = nb.param_name(1)
+    rt = nb.return_term()
+    f = {k: render(v) for k, v in zip(rt[2], rt[3])} if rt[0] == "agg" else {}
+    # (iterator adaptors consume their own iterator state, not the vector the iterator borrows)
+    muts = [mir.short(tm[1]) for bi, t, tm in nb.real_calls() if nb.mut_args(t) and tm[2] and render(tm[2][0]) == p and
+            not tm[1].startswith("std::iter::Iterator::")]
+    ctx.check("MarketDataInMemory::new", f.get("events") == p and not muts,
+              "the stored events are the given dataset itself, in its own order (no sort / filter / copy on the way in)",
+              got={"events": f.get("events", "")[:200], "mutating calls on it": muts}, key="dataset-verbatim")
+
+
+def r8(ctx):
+    """'concurrent backtests ... do not affect one another': each backtest owns its clock, exchange, engine and channels (R2, R5); what
+    is left to share is process-wide state.  The workspace's library code declares no `static` other than logging call sites - a
+    static with interior mutability (counter, cache, registry, thread-local) would be shared by every backtest in the process."""
+    SHARED = ("Atomic", "Mutex", "RwLock", "OnceLock", "OnceCell", "LazyLock", "LazyCell", "Lazy<", "Cell<", "RefCell", "LocalKey", "UnsafeCell", "static mut")
+    n = 0
+    bad = []
+    for d, r in sorted(ctx.facts.bodies.items()):
+        if r.get("kind") != "static" or r.get("test"):
+            continue
+        n += 1
+        ty = r["locals"][0]["ty"] if r.get("locals") else "?"
+        if ty.startswith("tracing::"):
+            continue
+        if any(k in ty for k in SHARED) or r.get("mutable"):
+            bad.append((mir.short(d), ty[:80], r.get("span")))
+    ctx.check("workspace statics", not bad, "no process-wide mutable state (the only statics are tracing call sites)", got=bad,
+              sites=[x[2] for x in bad], key="no-shared-state")
+    ctx.floor("statics examined", n, 100)
 
 
 def r4(ctx):
@@ -257,4 +295,5 @@ RULES = [
     ("R4", "market stream forwarded into the same feed the engine runner consumes", r4),
     ("R5", "shared constants are handed out as Arc clones and never mutated", r5),
     ("R7", "recorded streams: the error handler skips error items, it does not end the feed (= C12.R4)", r7),
+    ("R8", "isolation: no process-wide mutable state in workspace library code (statics = logging call sites only)", r8),
 ]
